@@ -93,72 +93,137 @@ Lemma include_keeps_typed c path st name t n :
   get_raw name st = ESome t n -> get_raw name (capture_for c path st) = ESome t n.
 Proof. intros H. unfold get_raw. rewrite (include_keeps_slot c path st name _ (get_raw_some _ _ _ _ H)). reflexivity. Qed.
 
-(* typed accesses to one property of the module at [path], interleaved with late includes *)
-Fixpoint run_entry_l (path : list str) (st : store) (name : str) (ops : list late) : store * list (list N) :=
+(* ---- the cell law for everything that can reach a property: fresh typed lookups, long-lived typed handles
+        (Prop<T>: creation, set, get), late includes ---- *)
+Inductive cop :=
+| CTyped (o : top)                          (* prop::<T>(name) [.set(v)] / prop_raw through a fresh lookup *)
+| CHandle (name : str) (ty : N)             (* a handle of type ty is created *)
+| CHset (name : str) (ty v : N)             (* set through a handle of type ty *)
+| CHget (name : str) (ty : N)               (* get through a handle of type ty *)
+| CInclude (k : str) (v : N).               (* a further configuration is included *)
+
+(* one operation directed at property [name] of the module at [path]; None = no output *)
+Definition cop_step (path : list str) (st : store) (name : str) (op : cop) : store * option (list N) :=
+  match op with
+  | CTyped o => let '(st', out) := top_step st name o in (st', Some out)
+  | CHandle _ ty => let '(st', r) := h_new st name ty in
+                    (st', Some [8; match r with None => 0 | Some er => err_code er end])
+  | CHset _ ty v => let '(st', out) := h_set st name ty v in (st', Some out)
+  | CHget _ ty => (st, Some (h_get st name ty))
+  | CInclude k v => (capture_for (cfg_new [(k, v)]) path st, None)
+  end.
+
+Fixpoint run_cell (path : list str) (st : store) (name : str) (ops : list cop) : store * list (list N) :=
   match ops with
   | [] => (st, [])
-  | LTyped o :: r => let '(st', out) := top_step st name o in
-                     let '(st'', outs) := run_entry_l path st' name r in (st'', out :: outs)
-  | LInclude k v :: r => run_entry_l path (capture_for (cfg_new [(k, v)]) path st) name r
+  | op :: r => let '(st', out) := cop_step path st name op in
+               let '(st'', outs) := run_cell path st' name r in
+               (st'', match out with Some x => x :: outs | None => outs end)
   end.
 
-Definition typed_of (ops : list late) : list top :=
-  flat_map (fun l => match l with LTyped o => [o] | LInclude _ _ => [] end) ops.
+(* what a cell of the fixed type [t] holding [n] answers: an access of another type is an error - InvalidInput for a
+   lookup or handle creation, the panic record for a set or get through a handle - and changes nothing *)
+Fixpoint cell_run2 (t n : N) (ops : list cop) : list (list N) :=
+  match ops with
+  | [] => []
+  | CTyped (TRead _ _ ty) :: r => (if t =? ty then [3; 1; n] else [3; 2]) :: cell_run2 t n r
+  | CTyped (TWrite _ _ ty v) :: r => if t =? ty then [4; 0] :: cell_run2 t (norm_val ty v) r else [4; 2] :: cell_run2 t n r
+  | CTyped (TRaw _ _) :: r => (5 :: enc_entry (ESome t n)) :: cell_run2 t n r
+  | CHandle _ ty :: r => (if t =? ty then [8; 0] else [8; 2]) :: cell_run2 t n r
+  | CHset _ ty v :: r => if t =? ty then [13; 0] :: cell_run2 t (norm_val ty v) r else [9; 4] :: cell_run2 t n r
+  | CHget _ ty :: r => (if t =? ty then [14; 1; n] else [9; 5]) :: cell_run2 t n r
+  | CInclude _ _ :: r => cell_run2 t n r
+  end.
+
+(* a set through a handle whose type differs from the property's type never changes the property *)
+Lemma h_set_mismatch st name t n ty v : get_raw name st = ESome t n -> t <> ty -> h_set st name ty v = (st, [9; 4]).
+Proof. intros H Ne. unfold h_set. rewrite H. apply N.eqb_neq in Ne. rewrite Ne. reflexivity. Qed.
+Lemma h_get_mismatch st name t n ty : get_raw name st = ESome t n -> t <> ty -> h_get st name ty = [9; 5].
+Proof. intros H Ne. unfold h_get. rewrite H. apply N.eqb_neq in Ne. rewrite Ne. reflexivity. Qed.
+Lemma h_new_mismatch st name t n ty : get_raw name st = ESome t n -> t <> ty ->
+  snd (h_new st name ty) = Some TInvalidInput /\ get_raw name (fst (h_new st name ty)) = ESome t n.
+Proof.
+  intros H Ne. unfold h_new. rewrite H, typed_fixed. apply N.eqb_neq in Ne. rewrite Ne. cbn [fst snd].
+  split; [reflexivity|apply get_raw_put].
+Qed.
+
+(* one step on a typed property: the type stays, the answer is the cell's *)
+Lemma cop_step_cell path st name t n op : get_raw name st = ESome t n ->
+  exists n', get_raw name (fst (cop_step path st name op)) = ESome t n' /\
+             forall r, cell_run2 t n (op :: r) =
+                       match snd (cop_step path st name op) with Some x => x :: cell_run2 t n' r | None => cell_run2 t n' r end.
+Proof.
+  intros H. destruct op as [o|nm ty|nm ty v|nm ty|k v]; cbn [cop_step].
+  - destruct o as [m nm ty|m nm ty w|m nm]; cbn [top_step cell_run2]; rewrite H, ?typed_fixed.
+    + destruct (t =? ty); cbn [fst snd]; (exists n; split; [apply get_raw_put|reflexivity]).
+    + destruct (t =? ty) eqn:Et; cbn [fst snd].
+      * apply N.eqb_eq in Et. subst ty. exists (norm_val t w). split; [apply get_raw_put|reflexivity].
+      * exists n. split; [apply get_raw_put|reflexivity].
+    + cbn [fst snd]. exists n. split; [apply get_raw_put|reflexivity].
+  - unfold h_new. rewrite H, typed_fixed. cbn [fst snd cell_run2].
+    exists n. split; [apply get_raw_put|]. intros r. destruct (t =? ty); reflexivity.
+  - unfold h_set. rewrite H. cbn [cell_run2]. destruct (t =? ty) eqn:Et; cbn [fst snd].
+    + apply N.eqb_eq in Et. subst ty. exists (norm_val t v). split; [apply get_raw_put|reflexivity].
+    + exists n. split; [exact H|reflexivity].
+  - cbn [fst snd cell_run2]. exists n. split; [exact H|]. intros r. unfold h_get. rewrite H. destruct (t =? ty); reflexivity.
+  - cbn [fst snd cell_run2]. exists n. split; [apply include_keeps_typed; exact H|reflexivity].
+Qed.
 
 Theorem typed_stable_across_includes : forall ops path st name t n, get_raw name st = ESome t n ->
-  snd (run_entry_l path st name ops) = cell_run t n (typed_of ops) /\
-  exists n', get_raw name (fst (run_entry_l path st name ops)) = ESome t n'.
+  snd (run_cell path st name ops) = cell_run2 t n ops /\
+  exists n', get_raw name (fst (run_cell path st name ops)) = ESome t n'.
 Proof.
-  induction ops as [|o r IH]; intros path st name t n H.
+  induction ops as [|op r IH]; intros path st name t n H.
   - split; [reflexivity|exists n; exact H].
-  - destruct o as [o|k v].
-    + cbn [run_entry_l typed_of flat_map app].
-      pose proof (typed_stable [o] st name t n H) as [A [n1 B]]. cbn [run_entry] in A, B.
-      destruct (top_step st name o) as [st' out] eqn:E. cbn [fst snd] in A, B.
-      assert (exists n2, get_raw name st' = ESome t n2 /\ cell_run t n (o :: typed_of r) = out :: cell_run t n2 (typed_of r)) as [n2 [B2 C]].
-      { destruct o as [m nm ty|m nm ty w|m nm]; cbn [cell_run] in A |- *; cbn [top_step] in E; rewrite H, ?typed_fixed in E.
-        - destruct (t =? ty); injection E as <- <-; (exists n; split; [apply get_raw_put|reflexivity]).
-        - destruct (t =? ty) eqn:Et; injection E as <- <-.
-          + apply N.eqb_eq in Et. subst ty. exists (norm_val t w). split; [apply get_raw_put|reflexivity].
-          + exists n. split; [apply get_raw_put|reflexivity].
-        - injection E as <- <-. exists n. split; [apply get_raw_put|reflexivity]. }
-      destruct (IH path st' name t n2 B2) as [A' B'].
-      destruct (run_entry_l path st' name r) as [st'' outs]. cbn [fst snd] in *. fold (typed_of r). rewrite C, A'. split; [reflexivity|exact B'].
-    + cbn [run_entry_l typed_of flat_map app]. apply IH. apply include_keeps_typed. exact H.
+  - cbn [run_cell]. destruct (cop_step_cell path st name t n op H) as [n1 [H1 C]]. rewrite (C r).
+    destruct (cop_step path st name op) as [st' out]. cbn [fst snd] in *.
+    destruct (IH path st' name t n1 H1) as [A B]. destruct (run_cell path st' name r) as [st'' outs]. cbn [fst snd] in *.
+    split; [destruct out; rewrite A; reflexivity|exact B].
 Qed.
 
-(* accesses to other properties do not matter either: whatever late operations run on the module, a property
-   that has a type keeps it *)
-Lemma top_step_other st name o k : str_eqb k name = false -> s_get k (fst (top_step st name o)) = s_get k st.
-Proof.
-  intros H. destruct o as [m nm ty|m nm ty w|m nm]; cbn [top_step].
-  - destruct (typed ty (get_raw name st)) as [e r]. cbn [fst]. apply s_get_put_other. exact H.
-  - destruct (typed ty (get_raw name st)) as [e [er|]]; cbn [fst]; apply s_get_put_other; exact H.
-  - cbn [fst]. apply s_get_put_other. exact H.
-Qed.
-
-Lemma top_step_type st name o t n : get_raw name st = ESome t n ->
-  exists n', get_raw name (fst (top_step st name o)) = ESome t n'.
-Proof.
-  intros H. destruct (typed_stable [o] st name t n H) as [_ [n' B]]. cbn [run_entry] in B.
-  destruct (top_step st name o) as [st' out]. cbn [fst] in *. exists n'. exact B.
-Qed.
-
-Fixpoint run_module_l (path : list str) (st : store) (ops : list late) : store :=
-  match ops with
-  | [] => st
-  | LTyped o :: r => run_module_l path (fst (top_step st (top_name o) (top_norm o))) r
-  | LInclude k v :: r => run_module_l path (capture_for (cfg_new [(k, v)]) path st) r
+(* operations on other properties do not matter: whatever runs on the module, a property that has a type keeps it *)
+Definition cop_name (name : str) (op : cop) : str :=
+  match op with
+  | CTyped o => top_name o
+  | CHandle nm _ | CHset nm _ _ | CHget nm _ => nm
+  | CInclude _ _ => name
   end.
 
-Theorem late_keeps_type : forall ops path st name t n, get_raw name st = ESome t n ->
-  exists n', get_raw name (run_module_l path st ops) = ESome t n'.
+Lemma cop_step_other path st nm op k : str_eqb k nm = false -> (forall a b, op <> CInclude a b) ->
+  s_get k (fst (cop_step path st nm op)) = s_get k st.
 Proof.
-  induction ops as [|o r IH]; intros path st name t n H; [exists n; exact H|].
-  destruct o as [o|k v]; cbn [run_module_l].
-  - destruct (str_eqb name (top_name o)) eqn:E.
-    + apply str_eqb_eq in E. subst name. destruct (top_step_type st (top_name o) (top_norm o) t n H) as [n1 H1].
-      exact (IH path _ _ t n1 H1).
-    + apply (IH path _ name t n). unfold get_raw. rewrite top_step_other by exact E. exact H.
-  - apply (IH path _ name t n). apply include_keeps_typed. exact H.
+  intros H NI. destruct op as [o|x ty|x ty v|x ty|a b]; cbn [cop_step].
+  - destruct o as [m x ty|m x ty w|m x]; cbn [top_step].
+    + destruct (typed ty (get_raw nm st)) as [e r]. cbn [fst]. apply s_get_put_other. exact H.
+    + destruct (typed ty (get_raw nm st)) as [e [er|]]; cbn [fst]; apply s_get_put_other; exact H.
+    + cbn [fst]. apply s_get_put_other. exact H.
+  - unfold h_new. destruct (typed ty (get_raw nm st)) as [e r]. cbn [fst]. apply s_get_put_other. exact H.
+  - unfold h_set. destruct (get_raw nm st) as [|y|t0 n0]; cbn [fst]; try (apply s_get_put_other; exact H).
+    destruct (t0 =? ty); cbn [fst]; [apply s_get_put_other; exact H|reflexivity].
+  - reflexivity.
+  - exfalso. exact (NI a b eq_refl).
+Qed.
+
+Fixpoint run_module (path : list str) (st : store) (ops : list cop) : store :=
+  match ops with
+  | [] => st
+  | op :: r => run_module path (fst (cop_step path st (cop_name [] op) op)) r
+  end.
+
+Lemma run_module_step path st name t n op : get_raw name st = ESome t n ->
+  exists n', get_raw name (fst (cop_step path st (cop_name [] op) op)) = ESome t n'.
+Proof.
+  intros H. assert ((exists a b, op = CInclude a b) \/ (forall a b, op <> CInclude a b)) as [[a [b ->]]|NI].
+  { destruct op; try (right; intros; discriminate). left. eexists. eexists. reflexivity. }
+  - cbn [cop_name cop_step fst]. exists n. apply include_keeps_typed. exact H.
+  - destruct (str_eqb name (cop_name [] op)) eqn:E.
+    + apply str_eqb_eq in E. rewrite <- E. destruct (cop_step_cell path st name t n op H) as [n1 [H1 _]]. exists n1. exact H1.
+    + exists n. unfold get_raw. rewrite cop_step_other by assumption. exact H.
+Qed.
+
+Theorem late_keeps_type : forall ops path st name t n, get_raw name st = ESome t n ->
+  exists n', get_raw name (run_module path st ops) = ESome t n'.
+Proof.
+  induction ops as [|op r IH]; intros path st name t n H; [exists n; exact H|]. cbn [run_module].
+  destruct (run_module_step path st name t n op H) as [n1 H1]. exact (IH path _ name t n1 H1).
 Qed.
